@@ -54,7 +54,11 @@ Reset == /\ IsEvent("reset")
 \* ------------------------------------------------------------ envelopes (micro-units)
 Max2(a, b) == IF a > b THEN a ELSE b
 \* 2 D N sqrt(A) / sqrt(T)
-VanillaEnv(T) == (2 * stats.D * stats.N * SqrtCeil(stats.A * 1000000) * 1000) \div SqrtFloor(T)
+\* (when the product would leave 32 bits the quotient is formed first and rounded up: never stricter)
+VanillaEnv(T) == LET q == SqrtCeil(stats.A * 1000000) * 1000
+                     m == 2 * stats.D * stats.N
+                 IN IF m <= 2147483647 \div q THEN (m * q) \div SqrtFloor(T)
+                    ELSE m * ((q \div SqrtFloor(T)) + 1)
 \* 6 D N (sqrt(A T) + 1) / T
 PresetTrivial(T) == 6 * stats.N * (SqrtCeil(stats.A * T) + 1) >= T     \* envelope >= D >= any regret
 PresetEnv(T) == 6 * stats.D * stats.N * (SqrtCeil(stats.A * T) + 1) * (1000000 \div T)
@@ -71,7 +75,10 @@ Common(r) == /\ TokLe(TokZero, r.b1) /\ TokLe(TokZero, r.b2)
 C02(r) == /\ Max2(r.b1hi, r.b2hi) >= r.rtlo
           /\ (r.iters < r.T => r.rtlo < r.thrhi)
 
-C03Vanilla(r) == r.iters = r.T => (r.b1lo <= VanillaEnv(r.T) /\ r.b2lo <= VanillaEnv(r.T))
+\* on games with very many infosets the envelope at small budgets exceeds what 32-bit micro-units hold (2147 payoff
+\* units): it is then not evaluated (a bound in micro-units that fits is below it anyway)
+VanillaTooBig(T) == stats.D * stats.N > 0 /\ (2147483647 \div (2 * stats.D * stats.N)) < ((SqrtCeil(stats.A * 1000000) * 1000) \div SqrtFloor(T)) + 1
+C03Vanilla(r) == r.iters = r.T => (VanillaTooBig(r.T) \/ (r.b1lo <= VanillaEnv(r.T) /\ r.b2lo <= VanillaEnv(r.T)))
 C03Preset(r) == (r.iters = r.T /\ ~PresetTrivial(r.T)) => r.rtlo <= PresetEnv(r.T)
 \* at the long budget (small games only) the constant is 4: the envelope with constant 1 is not a theorem
 \* and leaves only a factor 2.4 there (measured), with 4 it leaves about 10
